@@ -36,6 +36,12 @@ def h_entropy(env, N, r, mask, form):
         sub = np.array([i for i in range(N) if mask[i]], dtype=np.int64)
     elif form == 'reversed':
         sub = [i for i in range(N) if mask[i]][::-1]
+    elif form == 'negative':
+        sub = [i - N for i in range(N) if mask[i]]         # numpy-style negative indices count from the last qubit
+    elif form == 'boollist':
+        sub = [bool(b) for b in mask]
+    elif form == 'range':
+        sub = range(N)
     else:
         sub = np.array(mask, dtype=bool)
     res = env.run(lambda: state.entropy(sub))
@@ -96,7 +102,7 @@ def jobs(tier):
     for N in (1, 2, 3):
         for r in range(N + 1):
             for m in masks(N):
-                forms = ['indices', 'mask', 'nparray', 'reversed'] if any(m) else ['indices', 'tuple']
+                forms = (['indices', 'mask', 'nparray', 'reversed', 'boollist', 'negative'] + (['range'] if all(m) else [])) if any(m) else ['indices', 'tuple', 'boollist']
                 for form in forms:
                     J.append(dict(harness=('c08', 'h_entropy'), params=dict(N=N, r=r, mask=list(m), form=form),
                                   timeout_s=300, cost=(5 if N == 3 else 1), max_paths=5000))
